@@ -178,6 +178,8 @@ def freq_to_voicing(frequencies, voicing=None):
 
     """
     if voicing is not None:
+        # Copy so that the caller's array is not modified
+        voicing = np.array(voicing)
         voicing[frequencies == 0] = 0
     else:
         voicing = (frequencies > 0).astype(float)
